@@ -4,13 +4,13 @@
    Inputs of the model: [start], [stop] = the two points after raysect's Point3D.transform (raysect is not
    modelled; the harness obtains them from the same raysect call), [len] = the double the implementation
    obtained for |stop - start| (checked by len_ok). *)
-Require Import Cherab.Common.Qx Cherab.Model.C10_RayTransfer Cherab.Model.C10_Pipeline.
+Require Import Cherab.Common.Qx Cherab.Model.C10_RayTransfer Cherab.Model.C10_Pipeline Cherab.Model.C10_Emitter.
 From Coq Require Import Qabs Qround.
 Open Scope Q_scope.
 
 (* ---- tolerances (echoed into the evidence by harness/c10.py) ---- *)
 Definition amb_eps : Q := pow2 (-40).     (* a sample closer than this (relative) to a cell border is ambiguous *)
-Definition rel_tol : Q := pow2 (-36).     (* accumulated rounding of <= a few thousand additions of dt *)
+Definition rel_tol : Q := pow2 (-36).     (* superseded: check_call uses (n + 4) * 2^-51, see there *)
 Definition len_tol : Q := pow2 (-30).     (* len*len against the exact |end-start|^2 *)
 
 Definition len_ok (len : Q) (d : vec) : bool :=
@@ -94,7 +94,10 @@ Definition check_call (cellfn : vec -> cell) (ambfn : vec -> vec -> bool) (sh : 
       if negb (err =? 0)%Z then 0%Z else
       let model := integrate cellfn (vm_lookup sh vm) start stop len stp min_samples (spec_of_list init) in
       let tol := inject_Z namb * dt in
-      if forallb2 (fun j o => let e := model j in Qle_bool (Qabs (o - e)) (tol + rel_tol * (len + Qabs e)))
+      (* rounding: dt = fl(len/n) (2^-53), k additions of dt and one += per flush, each <= 2^-53 of the partial sum:
+         (n + 4) * 2^-51 * (len + |entry|) bounds it with a factor 2 to spare *)
+      let rel := inject_Z (n + 4) * pow2 (-51) in
+      if forallb2 (fun j o => let e := model j in Qle_bool (Qabs (o - e)) (tol + rel * (len + Qabs e)))
                   (zrange (length init)) out
       then (if (0 <? namb)%Z then 2 else 1)%Z else 0%Z.
 
@@ -158,3 +161,19 @@ Definition check_emission (cellfn : vec -> cell) (ambfn : vec -> vec -> bool) (s
     else 0%Z.
 Definition check_emission_cart (sh : shape) (steps : vec) := check_emission (cart_cell steps) (amb_cart steps) sh.
 Definition check_emission_cyl (sh : shape) (g : cylgrid) := check_emission (cyl_cell g) (amb_cyl g) sh.
+
+(* ---- emitters: the mask / voxel_map / bins state machine and the argument validation, compared exactly ----
+   one observed step = (voxel_map read back, bins, mask read back, error kind 0 none | 1 ValueError) *)
+Definition errz (e : errkind) : Z := match e with ErrNone => 0%Z | ErrValue => 1%Z end.
+Definition step_ok (r : emstate * errkind) (o : list Z * Z * list bool * Z) : bool :=
+  let '(vm, bins, mask, err) := o in
+  forallb2 Z.eqb (em_vm (fst r)) vm && (em_bins (fst r) =? bins)%Z && forallb2 Bool.eqb (em_mask (fst r)) mask
+  && (errz (snd r) =? err)%Z.
+Definition check_em_history (sh : shape) (voxel_map : option (shape * list Z)) (mask : option (shape * list bool))
+           (o0 : list Z * Z * list bool * Z) (ops : list emop) (outs : list (list Z * Z * list bool * Z)) : bool :=
+  let r0 := em_init sh voxel_map mask in
+  step_ok r0 o0 && forallb2 step_ok (em_history sh (fst r0) ops) outs.
+Definition check_validate_cart (sh : shape) (steps : vec) (err : Z) : bool := (errz (validate_grid sh steps) =? err)%Z.
+Definition check_validate_cyl (sh : shape) (steps : vec) (rmin : Q) (err : Z) : bool := (errz (validate_cyl sh steps rmin) =? err)%Z.
+Definition check_validate_integrator (stp : Q) (ms : Z) (err_step err_ms : Z) : bool :=
+  (errz (validate_step stp) =? err_step)%Z && (errz (validate_min_samples ms) =? err_ms)%Z.
